@@ -18,10 +18,10 @@
 pub uninterp spec fn spec_abs(cwd: PathV, arg: Comps) -> Option<PathV>;
 // ASSUMED[abs-contract]: Memfs::_abs returns Ok(a) with a absolute+clean and a == spec_abs(cwd, arg), Err iff spec_abs is None (proved in unit abs_both at component level)
 #[verifier::external_body]
-pub fn _abs(guard: &MemfsGuard, path: &PathBuf) -> (r: RvResult<PathBuf>)
+pub fn _abs<T: PathArg>(guard: &MemfsGuard, path: T) -> (r: RvResult<PathBuf>)
     requires guard.st().cwd_ok
-    ensures r is Ok <==> spec_abs(guard.st().cwd, path.comps()) is Some,
-            r is Ok ==> r->Ok_0.abs_clean() && r->Ok_0@ == spec_abs(guard.st().cwd, path.comps())->Some_0,
+    ensures r is Ok <==> spec_abs(guard.st().cwd, path.pc()) is Some,
+            r is Ok ==> r->Ok_0.abs_clean() && r->Ok_0@ == spec_abs(guard.st().cwd, path.pc())->Some_0 && r->Ok_0.comps() == abs_comps(r->Ok_0@),
 { unimplemented!() }
 // ASSUMED[relative-contract]: PathExt::relative (proved in unit path_relative at component level)
 pub uninterp spec fn spec_relative(p: Comps, base: Comps) -> Comps;
@@ -58,60 +58,71 @@ impl MemfsEntryOpts {
 //@ sig pub(crate) fn mode(mut self, mode: Option<u32>) -> Self
 //@ rw R2 + re⟦\bself\b⟧ => ⟦this⟧
 //@ rw R9 1 ⟦let mode = mode.unwrap_or(if⟧ => ⟦let mode = unwrap_or_u32(mode, if⟧
-    pub fn mode(mut this: MemfsEntryOpts, mode: Option<u32>) -> (r: MemfsEntryOpts)
-        ensures r.ov() == (EntryV { mode: kind_mode(this.link, this.file, this.dir, mode), ..this.ov() }),    //@ clause opts.mode.post [C01,C11]
-                same_path(r.path, this.path), same_path(r.alt, this.alt), same_path(r.rel, this.rel),
+//@ ins start
+        let mut this = self;
+//@ endins
+    pub fn mode(self, mode: Option<u32>) -> (r: MemfsEntryOpts)
+        ensures r.ov() == (EntryV { mode: kind_mode(self.link, self.file, self.dir, mode), ..self.ov() }),    //@ clause opts.mode.post [C01,C11]
+                same_path(r.path, self.path), same_path(r.alt, self.alt), same_path(r.rel, self.rel),
 //@ body
 
 //@ item opts_dir file=src/sys/fs/memfs/entry.rs block="impl MemfsEntryOpts" fn=dir props=C01,C10,C12
 //@ sig pub(crate) fn dir(mut self) -> Self
 //@ rw R2 + re⟦\bself\b⟧ => ⟦this⟧
-//@ rw R2 1 ⟦this.mode(mode)⟧ => ⟦MemfsEntryOpts::mode(this, mode)⟧
-    pub fn dir(mut this: MemfsEntryOpts) -> (r: MemfsEntryOpts)
+//@ ins start
+        let mut this = self;
+//@ endins
+    pub fn dir(self) -> (r: MemfsEntryOpts)
         ensures r.ov() == (EntryV { dir: true, file: false, kids: Some(Set::<Name>::empty()),
-                                    mode: kind_mode(this.link, false, true, if this.mode == 0 { None } else { Some(this.mode) }), ..this.ov() }),
-                same_path(r.path, this.path), same_path(r.alt, this.alt), same_path(r.rel, this.rel),
+                                    mode: kind_mode(self.link, false, true, if self.mode == 0 { None } else { Some(self.mode) }), ..self.ov() }),
+                same_path(r.path, self.path), same_path(r.alt, self.alt), same_path(r.rel, self.rel),
 //@ body
 
 //@ item opts_file file=src/sys/fs/memfs/entry.rs block="impl MemfsEntryOpts" fn=file props=C01,C10,C12
 //@ sig pub(crate) fn file(mut self) -> Self
 //@ rw R2 + re⟦\bself\b⟧ => ⟦this⟧
-//@ rw R2 1 ⟦this.mode(mode)⟧ => ⟦MemfsEntryOpts::mode(this, mode)⟧
-    pub fn file(mut this: MemfsEntryOpts) -> (r: MemfsEntryOpts)
+//@ ins start
+        let mut this = self;
+//@ endins
+    pub fn file(self) -> (r: MemfsEntryOpts)
         ensures r.ov() == (EntryV { dir: false, file: true, kids: None,
-                                    mode: kind_mode(this.link, true, false, if this.mode == 0 { None } else { Some(this.mode) }), ..this.ov() }),
-                same_path(r.path, this.path), same_path(r.alt, this.alt), same_path(r.rel, this.rel),
+                                    mode: kind_mode(self.link, true, false, if self.mode == 0 { None } else { Some(self.mode) }), ..self.ov() }),
+                same_path(r.path, self.path), same_path(r.alt, self.alt), same_path(r.rel, self.rel),
 //@ body
 
 //@ item opts_link_to file=src/sys/fs/memfs/entry.rs block="impl MemfsEntryOpts" fn=link_to props=C10,C01,C12
 //@ sig pub(crate) fn link_to<T: Into<PathBuf>>(mut self, path: T) -> RvResult<Self>
 //@ rw R2 + re⟦\bself\b⟧ => ⟦this⟧
-//@ rw R2 1 ⟦Ok(this.mode(None))⟧ => ⟦Ok(MemfsEntryOpts::mode(this, None))⟧
-    pub fn link_to(mut this: MemfsEntryOpts, path: PathBuf) -> (r: RvResult<MemfsEntryOpts>)
+//@ ins start
+        let mut this = self;
+//@ endins
+    pub fn link_to<T: PathArg>(self, path: T) -> (r: RvResult<MemfsEntryOpts>)
         ensures
-            (this.path.abs_clean() && this.path@.len() > 0) ==> r is Ok,
+            (self.path.abs_clean() && self.path@.len() > 0) ==> r is Ok,
             r is Ok ==> ({
                 let o = r->Ok_0;
-                &&& o.ov().link && o.ov().alt == path.comps()                                  //@ clause link_to.alt_is_target [C10]
-                &&& this.path.abs_clean() ==> o.ov().rel == spec_relative(path.comps(), abs_comps(this.path@.drop_last()))   //@ clause link_to.rel_is_relative_to_link_dir [C10]
-                &&& o.ov().mode == kind_mode(true, this.file, this.dir, None)
-                &&& o.ov().path == this.ov().path && o.ov().path_ok == this.ov().path_ok && o.ov().dir == this.dir && o.ov().file == this.file
-                &&& o.ov().uid == this.uid && o.ov().gid == this.gid
-                &&& same_path(o.path, this.path)
+                &&& o.ov().link && o.ov().alt == path.pc()                                  //@ clause link_to.alt_is_target [C10]
+                &&& self.path.abs_clean() ==> o.ov().rel == spec_relative(path.pc(), abs_comps(self.path@.drop_last()))   //@ clause link_to.rel_is_relative_to_link_dir [C10]
+                &&& o.ov().mode == kind_mode(true, self.file, self.dir, None)
+                &&& o.ov().path == self.ov().path && o.ov().path_ok == self.ov().path_ok && o.ov().dir == self.dir && o.ov().file == self.file
+                &&& o.ov().uid == self.uid && o.ov().gid == self.gid
+                &&& same_path(o.path, self.path)
             }),
 //@ body
 
 //@ item opts_build file=src/sys/fs/memfs/entry.rs block="impl MemfsEntryOpts" fn=build props=C01,C03,C10,C12
 //@ sig pub(crate) fn build(self) -> MemfsEntry
 //@ rw R2 + re⟦\bself\b⟧ => ⟦this⟧
-//@ rw R2 1 ⟦this.dir()⟧ => ⟦MemfsEntryOpts::dir(this)⟧
 //@ rw R4 1 ⟦Some(HashSet::new())⟧ => ⟦Some(NameSet::new())⟧
-    pub fn build(this: MemfsEntryOpts) -> (r: MemfsEntry)
+//@ ins start
+        let this = self;
+//@ endins
+    pub fn build(self) -> (r: MemfsEntry)
         ensures
-            (this.dir || this.file || this.link) ==> r.ev() == this.ov(),                       //@ clause build.keeps_opts [C01]
-            !(this.dir || this.file || this.link) ==> r.ev() == (EntryV { dir: true, file: false, kids: Some(Set::<Name>::empty()),
-                     mode: kind_mode(false, false, true, if this.mode == 0 { None } else { Some(this.mode) }), ..this.ov() }),   //@ clause build.default_is_dir [C01]
-            same_path(r.path, this.path),
+            (self.dir || self.file || self.link) ==> r.ev() == self.ov(),                       //@ clause build.keeps_opts [C01]
+            !(self.dir || self.file || self.link) ==> r.ev() == (EntryV { dir: true, file: false, kids: Some(Set::<Name>::empty()),
+                     mode: kind_mode(false, false, true, if self.mode == 0 { None } else { Some(self.mode) }), ..self.ov() }),   //@ clause build.default_is_dir [C01]
+            same_path(r.path, self.path),
 //@ body
 }
 
@@ -120,8 +131,8 @@ pub fn unwrap_or_u32(o: Option<u32>, d: u32) -> (r: u32) ensures r == (match o {
 impl MemfsEntry {
 //@ item entry_opts file=src/sys/fs/memfs/entry.rs block="impl MemfsEntry" fn=opts props=C01,C12
 //@ sig pub(crate) fn opts<T: Into<PathBuf>>(path: T) -> MemfsEntryOpts
-    pub fn opts(path: PathBuf) -> (r: MemfsEntryOpts)
-        ensures same_path(r.path, path), !r.dir && !r.file && !r.link && r.mode == 0 && r.uid == 1000 && r.gid == 1000,     //@ clause opts.defaults [C01]
+    pub fn opts<T: PathArg>(path: T) -> (r: MemfsEntryOpts)
+        ensures r.path.comps() == path.pc() && r.path@ == path.pv() && r.path.abs_clean() == path.pok(), !r.dir && !r.file && !r.link && r.mode == 0 && r.uid == 1000 && r.gid == 1000,     //@ clause opts.defaults [C01]
                 r.alt.comps() == Seq::<Comp>::empty(), r.rel.comps() == Seq::<Comp>::empty(),
 //@ body
 
@@ -147,7 +158,6 @@ impl MemfsEntry {
 
 //@ item entry_set_mode file=src/sys/fs/memfs/entry.rs block="impl MemfsEntry" fn=set_mode props=C11,C01,C12
 //@ sig pub(crate) fn set_mode(&mut self, mode: Option<u32>)
-//@ rw R2 1 re⟦\}\s*\.mode\(mode\);⟧ => ⟦}; let opts = MemfsEntryOpts::mode(opts, mode);⟧
     pub fn set_mode(&mut self, mode: Option<u32>)
         ensures final(self).ev() == (EntryV { mode: kind_mode(old(self).link, old(self).file, old(self).dir, mode), ..old(self).ev() }),     //@ clause entry.set_mode.post [C11,C01]
 //@ body
@@ -332,7 +342,7 @@ pub proof fn lemma_remove_missing(s: St, a: PathV)
         let ghost a = path@;
 //@ endins
 //@ ins before ⟦entry.remove(path.base()?)?;⟧
-            proof { assert(s0.entries.insert(dir@, s0.entries[dir@]) =~= s0.entries); }
+            proof { assert(s0.entries.insert(dir@, s0.entries[dir@]) =~= s0.entries); if s0.entries.contains_key(a) { assert(entry_ok(s0, a)); } }
 //@ endins
 //@ ins after ⟦guard.remove_entry(&path);⟧
         proof {
@@ -397,7 +407,7 @@ pub fn set_cwd(guard: &mut MemfsGuard, path: &PathBuf) -> (r: RvResult<PathBuf>)
 //@ sig fn mkfile<T: AsRef<Path>>(&self, path: T) -> RvResult<PathBuf>
 //@ rw R11 1 ⟦let mut guard = self.write_guard();⟧ => ⟦⟧
 //@ rw R11 1 ⟦self._abs(&guard, path)?⟧ => ⟦_abs(guard, path)?⟧
-//@ rw R11 1 ⟦self._add(&mut guard, MemfsEntry::opts(path).file().build())⟧ => ⟦_add(guard, MemfsEntryOpts::build(MemfsEntryOpts::file(MemfsEntry::opts(path))))⟧
+//@ rw R11 1 ⟦self._add(&mut guard, MemfsEntry::opts(path).file().build())⟧ => ⟦_add(guard, MemfsEntry::opts(path).file().build())⟧
 pub fn mkfile(guard: &mut MemfsGuard, path: &PathBuf) -> (r: RvResult<PathBuf>)
     requires wf(old(guard).st()),
     ensures
@@ -421,3 +431,231 @@ pub open spec fn new_file_entry(a: PathV) -> EntryV {
     EntryV { path: a, path_ok: true, alt: Seq::<Comp>::empty(), rel: Seq::<Comp>::empty(), dir: false, file: true, link: false,
              mode: kind_mode(false, true, false, None), uid: 1000, gid: 1000, follow: false, cached: false, kids: None }
 }
+
+// =====================================================================================================================
+// Queries: every query is a function of the state at abs(path) (C05 part 2) and agrees with the entry stored there (C01)
+impl MemfsEntry {
+//@ item entry_is_exec file=src/sys/fs/entry.rs block="pub trait Entry: Debug+Send+Sync+'static" fn=is_exec props=C11,C01,C12
+    pub fn is_exec(&self) -> (r: bool) ensures r == (self.mode & 0o111 != 0)     //@ clause entry.is_exec_agrees_with_mode [C11]
+//@ body
+//@ item entry_is_readonly file=src/sys/fs/entry.rs block="pub trait Entry: Debug+Send+Sync+'static" fn=is_readonly props=C11,C01,C12
+    pub fn is_readonly(&self) -> (r: bool) ensures r == (self.mode & 0o222 == 0)     //@ clause entry.is_readonly_agrees_with_mode [C11]
+//@ body
+//@ item entry_is_symlink_dir file=src/sys/fs/entry.rs block="pub trait Entry: Debug+Send+Sync+'static" fn=is_symlink_dir props=C10,C01,C12
+    pub fn is_symlink_dir(&self) -> (r: bool) ensures r == (self.link && self.dir)
+//@ body
+//@ item entry_is_symlink_file file=src/sys/fs/entry.rs block="pub trait Entry: Debug+Send+Sync+'static" fn=is_symlink_file props=C10,C01,C12
+    pub fn is_symlink_file(&self) -> (r: bool) ensures r == (self.link && self.file)
+//@ body
+}
+
+pub open spec fn at(s: St, arg: Comps) -> Option<EntryV> {
+    match spec_abs(s.cwd, arg) { Some(a) => if s.entries.contains_key(a) { Some(s.entries[a]) } else { None }, None => None }
+}
+
+//@ item exists file=src/sys/fs/memfs/vfs.rs block="impl VirtualFileSystem for Memfs" fn=exists props=C01,C05,C12
+//@ rw R11 1 ⟦let guard = self.read_guard();⟧ => ⟦⟧
+//@ rw R10 1 ⟦unwrap_or_false!(self._abs(&guard, path))⟧ => ⟦match _abs(guard, path) { Ok(v) => v, Err(_) => return false }⟧
+pub fn exists(guard: &MemfsGuard, path: &PathBuf) -> (r: bool)
+    requires guard.st().cwd_ok
+    ensures r == (at(guard.st(), path.comps()) is Some)     //@ clause exists.post [C01,C05]
+//@ body
+
+//@ item _is_dir file=src/sys/fs/memfs/vfs.rs block="impl Memfs" fn=_is_dir props=C01,C05,C12
+//@ rw R10 1 ⟦unwrap_or_false!(self._abs(guard, path))⟧ => ⟦match _abs(guard, path) { Ok(v) => v, Err(_) => return false }⟧
+pub fn _is_dir(guard: &MemfsGuard, path: &PathBuf) -> (r: bool)
+    requires guard.st().cwd_ok
+    ensures r == (at(guard.st(), path.comps()) is Some && at(guard.st(), path.comps())->Some_0.dir)
+//@ body
+
+//@ item is_dir file=src/sys/fs/memfs/vfs.rs block="impl VirtualFileSystem for Memfs" fn=is_dir props=C01,C10,C05,C12
+//@ sig fn is_dir<T: AsRef<Path>>(&self, path: T) -> bool
+//@ rw R11 1 ⟦let guard = self.read_guard();⟧ => ⟦⟧
+//@ rw R10 1 ⟦unwrap_or_false!(self._abs(&guard, path))⟧ => ⟦match _abs(guard, path) { Ok(v) => v, Err(_) => return false }⟧
+pub fn is_dir(guard: &MemfsGuard, path: &PathBuf) -> (r: bool)
+    requires guard.st().cwd_ok
+    ensures r == (at(guard.st(), path.comps()) is Some && at(guard.st(), path.comps())->Some_0.dir && !at(guard.st(), path.comps())->Some_0.link)     //@ clause is_dir.link_exclusion [C10,C01]
+//@ body
+
+//@ item is_file file=src/sys/fs/memfs/vfs.rs block="impl VirtualFileSystem for Memfs" fn=is_file props=C01,C10,C05,C12
+//@ sig fn is_file<T: AsRef<Path>>(&self, path: T) -> bool
+//@ rw R11 1 ⟦let guard = self.read_guard();⟧ => ⟦⟧
+//@ rw R10 1 ⟦unwrap_or_false!(self._abs(&guard, path))⟧ => ⟦match _abs(guard, path) { Ok(v) => v, Err(_) => return false }⟧
+pub fn is_file(guard: &MemfsGuard, path: &PathBuf) -> (r: bool)
+    requires guard.st().cwd_ok
+    ensures r == (at(guard.st(), path.comps()) is Some && at(guard.st(), path.comps())->Some_0.file && !at(guard.st(), path.comps())->Some_0.link)     //@ clause is_file.link_exclusion [C10,C01]
+//@ body
+
+//@ item is_exec file=src/sys/fs/memfs/vfs.rs block="impl VirtualFileSystem for Memfs" fn=is_exec props=C11,C01,C05,C12
+//@ rw R11 1 ⟦let guard = self.read_guard();⟧ => ⟦⟧
+//@ rw R10 1 ⟦unwrap_or_false!(self._abs(&guard, path))⟧ => ⟦match _abs(guard, path) { Ok(v) => v, Err(_) => return false }⟧
+pub fn is_exec(guard: &MemfsGuard, path: &PathBuf) -> (r: bool)
+    requires guard.st().cwd_ok
+    ensures r == (at(guard.st(), path.comps()) is Some && (at(guard.st(), path.comps())->Some_0.mode & 0o111 != 0))     //@ clause is_exec.post
+//@ body
+
+//@ item is_readonly file=src/sys/fs/memfs/vfs.rs block="impl VirtualFileSystem for Memfs" fn=is_readonly props=C11,C01,C05,C12
+//@ rw R11 1 ⟦let guard = self.read_guard();⟧ => ⟦⟧
+//@ rw R10 1 ⟦unwrap_or_false!(self._abs(&guard, path))⟧ => ⟦match _abs(guard, path) { Ok(v) => v, Err(_) => return false }⟧
+pub fn is_readonly(guard: &MemfsGuard, path: &PathBuf) -> (r: bool)
+    requires guard.st().cwd_ok
+    ensures r == (at(guard.st(), path.comps()) is Some && (at(guard.st(), path.comps())->Some_0.mode & 0o222 == 0))     //@ clause is_readonly.post
+//@ body
+
+//@ item is_symlink file=src/sys/fs/memfs/vfs.rs block="impl VirtualFileSystem for Memfs" fn=is_symlink props=C10,C01,C05,C12
+//@ rw R11 1 ⟦let guard = self.read_guard();⟧ => ⟦⟧
+//@ rw R10 1 ⟦unwrap_or_false!(self._abs(&guard, path))⟧ => ⟦match _abs(guard, path) { Ok(v) => v, Err(_) => return false }⟧
+pub fn is_symlink(guard: &MemfsGuard, path: &PathBuf) -> (r: bool)
+    requires guard.st().cwd_ok
+    ensures r == (at(guard.st(), path.comps()) is Some && at(guard.st(), path.comps())->Some_0.link)     //@ clause is_symlink.post
+//@ body
+
+//@ item is_symlink_dir file=src/sys/fs/memfs/vfs.rs block="impl VirtualFileSystem for Memfs" fn=is_symlink_dir props=C10,C01,C05,C12
+//@ rw R11 1 ⟦let guard = self.read_guard();⟧ => ⟦⟧
+//@ rw R10 1 ⟦unwrap_or_false!(self._abs(&guard, path))⟧ => ⟦match _abs(guard, path) { Ok(v) => v, Err(_) => return false }⟧
+pub fn is_symlink_dir(guard: &MemfsGuard, path: &PathBuf) -> (r: bool)
+    requires guard.st().cwd_ok
+    ensures r == (at(guard.st(), path.comps()) is Some && at(guard.st(), path.comps())->Some_0.link && at(guard.st(), path.comps())->Some_0.dir)     //@ clause is_symlink_dir.post
+//@ body
+
+//@ item is_symlink_file file=src/sys/fs/memfs/vfs.rs block="impl VirtualFileSystem for Memfs" fn=is_symlink_file props=C10,C01,C05,C12
+//@ rw R11 1 ⟦let guard = self.read_guard();⟧ => ⟦⟧
+//@ rw R10 1 ⟦unwrap_or_false!(self._abs(&guard, path))⟧ => ⟦match _abs(guard, path) { Ok(v) => v, Err(_) => return false }⟧
+pub fn is_symlink_file(guard: &MemfsGuard, path: &PathBuf) -> (r: bool)
+    requires guard.st().cwd_ok
+    ensures r == (at(guard.st(), path.comps()) is Some && at(guard.st(), path.comps())->Some_0.link && at(guard.st(), path.comps())->Some_0.file)     //@ clause is_symlink_file.post
+//@ body
+
+//@ item mode file=src/sys/fs/memfs/vfs.rs block="impl VirtualFileSystem for Memfs" fn=mode props=C11,C01,C05,C12
+//@ rw R11 1 ⟦let guard = self.read_guard();⟧ => ⟦⟧
+//@ rw R11 1 ⟦self._abs(&guard, path)?⟧ => ⟦_abs(guard, path)?⟧
+pub fn mode(guard: &MemfsGuard, path: &PathBuf) -> (r: RvResult<u32>)
+    requires guard.st().cwd_ok
+    ensures (r is Ok) == (at(guard.st(), path.comps()) is Some),
+            r is Ok ==> r->Ok_0 == at(guard.st(), path.comps())->Some_0.mode,     //@ clause mode.post
+            (r is Err && spec_abs(guard.st().cwd, path.comps()) is Some) ==> r->Err_0.kind == ErrKind::DoesNotExist,
+//@ body
+
+//@ item uid file=src/sys/fs/memfs/vfs.rs block="impl VirtualFileSystem for Memfs" fn=uid props=C11,C01,C05,C12
+//@ rw R11 1 ⟦let guard = self.read_guard();⟧ => ⟦⟧
+//@ rw R11 1 ⟦self._abs(&guard, path)?⟧ => ⟦_abs(guard, path)?⟧
+pub fn uid(guard: &MemfsGuard, path: &PathBuf) -> (r: RvResult<u32>)
+    requires guard.st().cwd_ok
+    ensures (r is Ok) == (at(guard.st(), path.comps()) is Some),
+            r is Ok ==> r->Ok_0 == at(guard.st(), path.comps())->Some_0.uid,     //@ clause uid.post
+            (r is Err && spec_abs(guard.st().cwd, path.comps()) is Some) ==> r->Err_0.kind == ErrKind::DoesNotExist,
+//@ body
+
+//@ item gid file=src/sys/fs/memfs/vfs.rs block="impl VirtualFileSystem for Memfs" fn=gid props=C11,C01,C05,C12
+//@ rw R11 1 ⟦let guard = self.read_guard();⟧ => ⟦⟧
+//@ rw R11 1 ⟦self._abs(&guard, path)?⟧ => ⟦_abs(guard, path)?⟧
+pub fn gid(guard: &MemfsGuard, path: &PathBuf) -> (r: RvResult<u32>)
+    requires guard.st().cwd_ok
+    ensures (r is Ok) == (at(guard.st(), path.comps()) is Some),
+            r is Ok ==> r->Ok_0 == at(guard.st(), path.comps())->Some_0.gid,     //@ clause gid.post
+            (r is Err && spec_abs(guard.st().cwd, path.comps()) is Some) ==> r->Err_0.kind == ErrKind::DoesNotExist,
+//@ body
+
+//@ item owner file=src/sys/fs/memfs/vfs.rs block="impl VirtualFileSystem for Memfs" fn=owner props=C11,C01,C05,C12
+//@ rw R11 1 ⟦let guard = self.read_guard();⟧ => ⟦⟧
+//@ rw R11 1 ⟦self._abs(&guard, path)?⟧ => ⟦_abs(guard, path)?⟧
+pub fn owner(guard: &MemfsGuard, path: &PathBuf) -> (r: RvResult<(u32, u32)>)
+    requires guard.st().cwd_ok
+    ensures (r is Ok) == (at(guard.st(), path.comps()) is Some),
+            r is Ok ==> r->Ok_0 == (at(guard.st(), path.comps())->Some_0.uid, at(guard.st(), path.comps())->Some_0.gid),     //@ clause owner.post
+            (r is Err && spec_abs(guard.st().cwd, path.comps()) is Some) ==> r->Err_0.kind == ErrKind::DoesNotExist,
+//@ body
+
+//@ item readlink file=src/sys/fs/memfs/vfs.rs block="impl VirtualFileSystem for Memfs" fn=readlink props=C10,C01,C05,C12
+//@ rw R11 1 ⟦let guard = self.read_guard();⟧ => ⟦⟧
+//@ rw R11 1 ⟦self._abs(&guard, link)?⟧ => ⟦_abs(guard, link)?⟧
+pub fn readlink(guard: &MemfsGuard, link: &PathBuf) -> (r: RvResult<PathBuf>)
+    requires guard.st().cwd_ok
+    ensures (r is Ok) == (at(guard.st(), link.comps()) is Some && at(guard.st(), link.comps())->Some_0.link),
+            r is Ok ==> r->Ok_0.comps() == at(guard.st(), link.comps())->Some_0.rel,     //@ clause readlink.returns_recorded_target [C10]
+            (at(guard.st(), link.comps()) is Some && !at(guard.st(), link.comps())->Some_0.link) ==> r is Err && r->Err_0.kind == ErrKind::IsNotSymlink,     //@ clause readlink.non_link_fails [C10]
+            (spec_abs(guard.st().cwd, link.comps()) is Some && at(guard.st(), link.comps()) is None) ==> r is Err && r->Err_0.kind == ErrKind::DoesNotExist,
+//@ body
+
+//@ item readlink_abs file=src/sys/fs/memfs/vfs.rs block="impl VirtualFileSystem for Memfs" fn=readlink_abs props=C10,C01,C05,C12
+//@ rw R11 1 ⟦let guard = self.read_guard();⟧ => ⟦⟧
+//@ rw R11 1 ⟦self._abs(&guard, link)?⟧ => ⟦_abs(guard, link)?⟧
+pub fn readlink_abs(guard: &MemfsGuard, link: &PathBuf) -> (r: RvResult<PathBuf>)
+    requires guard.st().cwd_ok
+    ensures (r is Ok) == (at(guard.st(), link.comps()) is Some && at(guard.st(), link.comps())->Some_0.link),
+            r is Ok ==> r->Ok_0.comps() == at(guard.st(), link.comps())->Some_0.alt,     //@ clause readlink_abs.returns_recorded_target [C10]
+            (at(guard.st(), link.comps()) is Some && !at(guard.st(), link.comps())->Some_0.link) ==> r is Err && r->Err_0.kind == ErrKind::IsNotSymlink,     //@ clause readlink_abs.non_link_fails [C10]
+            (spec_abs(guard.st().cwd, link.comps()) is Some && at(guard.st(), link.comps()) is None) ==> r is Err && r->Err_0.kind == ErrKind::DoesNotExist,
+//@ body
+
+// =====================================================================================================================
+// symlink(link, target): "Creates a new symbolic link" -- the link entry records the target faithfully (C10)
+pub uninterp spec fn comps_absolute(c: Comps) -> bool;     // Path::is_absolute on a spelling (ASSUMED[pathbuf-ops])
+impl PathBuf {
+    #[verifier::external_body]
+    pub fn is_absolute2(&self) -> (b: bool) ensures b == comps_absolute(self.comps()), self.abs_clean() ==> b { unimplemented!() }
+}
+// the spelling symlink resolves the target through: absolute targets as given, relative ones joined onto the link's directory
+pub open spec fn target_arg(a: PathV, target: Comps) -> Comps {
+    if comps_absolute(target) { target } else { PathBuf::spec_mash(abs_comps(a.drop_last()), target) }
+}
+pub open spec fn link_entry(a: PathV, b: PathV, to_dir: bool) -> EntryV {
+    EntryV { path: a, path_ok: true, alt: abs_comps(b), rel: spec_relative(abs_comps(b), abs_comps(a.drop_last())),
+             dir: to_dir, file: !to_dir, link: true, mode: kind_mode(true, !to_dir, to_dir, None), uid: 1000, gid: 1000,
+             follow: false, cached: false, kids: if to_dir { Some(Set::<Name>::empty()) } else { None } }
+}
+
+//@ item _symlink file=src/sys/fs/memfs/vfs.rs block="impl Memfs" fn=_symlink props=C10,C01,C03,C05,C12
+//@ rw R11 1 ⟦self._abs(guard, link)?⟧ => ⟦_abs(guard, link)?⟧
+//@ rw R11 1 ⟦self._abs(guard, if !target.is_absolute() {⟧ => ⟦_abs(guard, if !target.is_absolute2() {⟧
+//@ rw R11 1 ⟦self._add(guard, entry_opts.build())?;⟧ => ⟦_add(guard, entry_opts.build())?;⟧
+//@ ins after ⟦_abs(guard, link)?;⟧
+        let ghost s0 = guard.st();
+        proof { link.ax_abs(); }
+//@ endins
+//@ ins before ⟦let mut entry_opts =⟧
+        proof { target.ax_abs(); }
+//@ endins
+pub fn _symlink(guard: &mut MemfsGuard, link: &PathBuf, target: &PathBuf) -> (r: RvResult<PathBuf>)
+    requires wf(old(guard).st()),
+    ensures
+        r is Err ==> final(guard).st() == old(guard).st(),                                                 //@ clause symlink.failure_atomic [C01]
+        ({
+            let s0 = old(guard).st();
+            let a = spec_abs(s0.cwd, link.comps());
+            &&& (a is None) ==> r is Err
+            &&& (a is Some && a->Some_0.len() > 0) ==> ({
+                    let b = spec_abs(s0.cwd, target_arg(a->Some_0, target.comps()));
+                    &&& (b is None) ==> r is Err
+                    &&& (b is Some) ==> ({
+                        let to_dir = s0.entries.contains_key(b->Some_0) && s0.entries[b->Some_0].dir;
+                        let e = link_entry(a->Some_0, b->Some_0, to_dir);
+                        &&& (r is Err) == (spec_add_err(s0, e) is Some)
+                        &&& r is Err ==> Some(r->Err_0.kind) == spec_add_err(s0, e)
+                        // the new entry records abs(target) as alt, the path relative to the link's directory as rel, the target's kind at creation, and no data
+                        &&& final(guard).st() == spec_add_st(s0, e)                                           //@ clause symlink.records_target_faithfully [C10,C01]
+                        &&& r is Ok ==> r->Ok_0@ == a->Some_0 && r->Ok_0.abs_clean()
+                        &&& wf(final(guard).st()) || parent_is_link(s0, a->Some_0)                            //@ clause symlink.wf_preserved [C03]
+                    })
+                })
+        }),
+//@ body
+
+//@ item symlink file=src/sys/fs/memfs/vfs.rs block="impl VirtualFileSystem for Memfs" fn=symlink props=C10,C01,C03,C05,C12
+//@ rw R11 1 ⟦self._symlink(&mut self.write_guard(), link, target)⟧ => ⟦_symlink(guard, link, target)⟧
+pub fn symlink(guard: &mut MemfsGuard, link: &PathBuf, target: &PathBuf) -> (r: RvResult<PathBuf>)
+    requires wf(old(guard).st()),
+    ensures
+        r is Err ==> final(guard).st() == old(guard).st(),
+        ({
+            let s0 = old(guard).st();
+            let a = spec_abs(s0.cwd, link.comps());
+            (a is Some && a->Some_0.len() > 0 && spec_abs(s0.cwd, target_arg(a->Some_0, target.comps())) is Some) ==> ({
+                let b = spec_abs(s0.cwd, target_arg(a->Some_0, target.comps()))->Some_0;
+                let e = link_entry(a->Some_0, b, s0.entries.contains_key(b) && s0.entries[b].dir);
+                &&& (r is Err) == (spec_add_err(s0, e) is Some)
+                &&& final(guard).st() == spec_add_st(s0, e)                    //@ clause symlink.transition [C10,C01]
+                &&& r is Ok ==> r->Ok_0@ == a->Some_0
+            })
+        }),
+//@ body
